@@ -14,7 +14,9 @@ PROPS = {
         "run_cfg": {"max_steps": 30, "run_timeout": 20},
         "rule": (
             "one evaluation = one seeded history of 3-30 DictList operations (28 kinds, per-run "
-            "random subset and weights; indices from [-len-2, len+2]; objects from a universe of "
+            "random subset and weights; indices from [-len-2, len+2]; operands as plain lists, DictLists, "
+            "the list itself, slices of it, one-shot iterators, iterables that raise part-way and entries "
+            "without identifier; sort with unorderable keys; objects from a universe of "
             "4-12 cobra Objects over a 6-letter id alphabet so duplicate ids are frequent) executed "
             "on the real DictList and on a plain Python list; after every operation the full "
             "coherence oracle runs, after every raising operation the list must be unchanged. "
@@ -45,7 +47,8 @@ _HIST_RULE = (
     "one evaluation = one seeded history of 4-{n} public operations (46 kinds; per-run random subset and "
     "weights, swarm-chosen model of 2-6 metabolites / 3-10 reactions, solver interface, invalid-argument "
     "probability) applied to live models (up to 3 actors) and, step by step, to an executable reference "
-    "model; oracles of this property run after every step. distinct = distinct digests of (operation list, "
+    "model; oracles of this property run after every step (thorough tier: a third of the runs use 5-8 metabolites / 6-12 reactions and "
+    "20-60 operations). distinct = distinct digests of (operation list, "
     "per-step content digests); non-trivial = at least one operation changed the observable state."
 )
 _HIST_COMPONENTS = {"real": REAL + ["optlang temp-file copy of the GLPK problem"],
@@ -98,7 +101,7 @@ PROPS["C04"] = _hist(
     "optimize()/slim_optimize() are observation operations inside edit histories (warm-started solver, both interfaces, copies, "
     "contexts): status, optimum, fluxes, duals and the status->return/exception mapping are judged against an exact rational LP "
     "(checked certificates) built from the reference model; every Solution ever returned is re-compared with its frozen copy after "
-    "every later step.",
+    "every later step; after a solve without optimum the per-object accessors may only raise the documented exception classes.",
     "In-family part only (history dependence, snapshot immutability, verdict handling); the input dimension is sampled by small "
     "generated networks and the states edit histories reach. Trusted base: sim/reflp.py + fractions.", "4 (C04)",
     probes=["fba_truth_optimal", "fba_truth_infeasible", "fba_truth_unbounded", "fba_optimum_checked", "duals_checked",
@@ -107,7 +110,8 @@ PROPS["C07"] = _hist(
     "C07", 20000, 200000,
     "Knock-out heavy histories (Gene.knock_out, knock_out_model_genes by object/id/index, Reaction.knock_out, functional flags, "
     "rule edits, contexts) judged against truth tables over the generator's own rule trees (never cobrapy's parser); 15 % of the quick "
-    "and 50 % of the thorough runs drive *every* subset of the model's genes (<= 64), each in its own context and in a seeded order.",
+    "and 50 % of the thorough runs drive *every* subset of the model's genes (<= 64), each in its own context and in a seeded order; "
+    "after every block that is left, gene states and reaction bounds must be what they were on entry.",
     "Sampled histories; rules are random and/or trees of depth <= 3 over <= 6 shared genes.", "4 (C07)")
 PROPS["C10"] = _hist(
     "C10", 9000, 110000,
